@@ -184,7 +184,9 @@ def mutate_tree(rng, tree):
         if nd.kind == "S":
             new = rng.choice([Q([]), Q([clone(nd)]), M([]), M([("x", clone(nd))]), Q([Q([clone(nd)])])])
         elif nd.kind == "Q":
-            new = rng.choice([S("x"), S("~", "p"), M([]), M([(str(i), clone(x)) for i, x in enumerate(nd.items)]), S("")])
+            # the last variant has half as many pairs as the sequence had items (pairs are twice as wide as items)
+            new = rng.choice([S("x"), S("~", "p"), M([]), M([(str(i), clone(x)) for i, x in enumerate(nd.items)]), S(""),
+                              M([(clone(nd.items[i]), clone(nd.items[i + 1])) for i in range(0, len(nd.items) - 1, 2)])])
         else:
             new = rng.choice([S("x"), S("~", "p"), Q([]), Q([clone(v) for k2, v in nd.pairs]), S("1")])
         put(parent, slot, new)
@@ -273,6 +275,18 @@ def directed_cases(rng):
     out.append(("entry-seq", t8(["1e9", "2e9"], kinds={1: Q([S("f"), S("1")])})))
     out.append(("entry-seq-first", t8(["1e9"], kinds={0: Q([])})))
     out.append(("entry-null", t8(["1e9"], kinds={0: S("~", "p")})))
+    # a mapping with one pair where a two-element vector / a 2x2 matrix is expected
+    for nm in ("ts", "tm"):
+        tr = t8(["1e9"], rows=2, cols=2)
+        ent = tr.pairs[0][1].items[0].get("data").items[0]
+        for i, (k, v) in enumerate(ent.pairs):
+            if k.text == nm:
+                ent.pairs[i] = (k, M([(S("1"), S("2"))]))
+        out.append(("vector-as-mapping-" + nm, tr))
+    tr = M([("calibrations", Q([M([("name", S("x")), ("type", S("T16")), ("rows", S("1")), ("columns", S("1")), ("frequencies", S("1")),
+                                   ("data", Q([M([("f", S("1e9")), ("ts", Q([M([(S("1"), S("1"))])])), ("ti", Q([Q([S("1")])])),
+                                                  ("tx", Q([Q([S("1")])])), ("tm", M([(S("1"), Q([S("1")]))]))])]))])]))])
+    out.append(("matrix-as-mapping", tr))
     out.append(("dims-T-tall", t8(["1e9"], rows=2, cols=1)))
     out.append(("dims-U-wide", t8(["1e9"], rows=1, cols=2, typ="U8")))
     out.append(("dims-zero", t8(["1e9"], rows=0, cols=0)))
